@@ -19,13 +19,14 @@ Definition step_401 (idx : Z) (t : Z) (v : tval) (kind : Z) (p : list pstep) (st
     match decode_all st sb with
     | None => (VSkip, None)
     | Some x =>
+      (* the next model state is always ast_step (the function the history theorems of Properties_C04 are about) *)
       match ast_set true p x v with
-      | None => (expect (100 + idx) ((err =? 1) && bytes_eqb res prev) [FZ 1; FB prev], Some v)
+      | None => (expect (100 + idx) ((err =? 1) && bytes_eqb res prev) [FZ 1; FB prev], Some (ast_step true v (OSet p x)))
       | Some (v', e) =>
-        if (err =? 0) && (ex =? Z.b2z e) && bytes_eqb res (encode v') then (VOk, Some v')
+        if (err =? 0) && (ex =? Z.b2z e) && bytes_eqb res (encode v') then (VOk, Some (ast_step true v (OSet p x)))
         else match ast_set false p x v with
              | Some (v2, e2) =>
-               if (err =? 0) && (ex =? Z.b2z e2) && bytes_eqb res (encode v2) then (VDrift 1, Some v2)
+               if (err =? 0) && (ex =? Z.b2z e2) && bytes_eqb res (encode v2) then (VDrift 1, Some (ast_step false v (OSet p x)))
                else (VBad (200 + idx) [FZ 0; FZ (Z.b2z e); FB (encode v')], None)
              | None => (VBad (200 + idx) [FZ 0; FZ (Z.b2z e); FB (encode v')], None)
              end
@@ -34,9 +35,9 @@ Definition step_401 (idx : Z) (t : Z) (v : tval) (kind : Z) (p : list pstep) (st
   else if (kind =? 2) || (kind =? 4) then
     match ast_unset p v with
     | DErr => (* a path that addresses nothing: the value must stay unchanged (error or not) *)
-              (expect (300 + idx) (((err =? 1) || (err =? 0)) && bytes_eqb res prev) [FZ 1; FB prev], Some v)
+              (expect (300 + idx) (((err =? 1) || (err =? 0)) && bytes_eqb res prev) [FZ 1; FB prev], Some (ast_step true v (OUnset p)))
     | DOk v' removed =>
-      (expect (400 + idx) (bytes_eqb res (encode v') && (if removed then err =? 0 else true)) [FZ 0; FB (encode v')], Some v')
+      (expect (400 + idx) (bytes_eqb res (encode v') && (if removed then err =? 0 else true)) [FZ 0; FB (encode v')], Some (ast_step true v (OUnset p)))
     end
   else (VBad 98 [], None).
 
